@@ -346,6 +346,8 @@ def descriptor_cache(ctx) -> None:
 
 
 def run(ctx) -> None:
+    # nothing is computed from a loop variable after its loop ran to completion (it would be the last element's value)
+    shared.r_staleloop(ctx, ctx.prog.functions([m for m in ctx.prog.modules if m.startswith(('forml.runtime._service',))]))
     request_state(ctx)
     descriptor_cache(ctx)
     per_instance(ctx)
